@@ -467,7 +467,24 @@ func genCase(o opts) func(rt *rapid.T) Case {
 				p.Value = "-1"
 			}
 			if o.ext == "entities" && s.k == kString {
-				p.Value = "R&amp;D &lt;lab&gt; " + p.Value
+				// predefined entities at the start, in the middle and at the end of the value
+				ent := func(l string) string {
+					return rapid.SampledFrom([]string{"&amp;", "&lt;", "&gt;", "&quot;", "&apos;"}).Draw(rt, l)
+				}
+				switch rapid.IntRange(0, 3).Draw(rt, "entpos") {
+				case 0:
+					p.Value = ent("e0") + p.Value
+				case 1:
+					p.Value = p.Value + ent("e1")
+				case 2:
+					h := len(p.Value) / 2
+					for h > 0 && h < len(p.Value) && p.Value[h]&0xC0 == 0x80 {
+						h--
+					}
+					p.Value = p.Value[:h] + ent("e2") + p.Value[h:]
+				default:
+					p.Value = ent("e3") + p.Value + ent("e4") + ent("e5")
+				}
 			}
 			if p.Elem {
 				both[1]++
